@@ -108,6 +108,7 @@ class Ctx:
         self.log = []
         self.lvl = 0
         self.aborted = False
+        self.msgs = {}  # (class path, tag) -> the message object: equal messages are the same object
 
     def listener(self, l):
         x = self.listeners.get(l)
@@ -133,7 +134,11 @@ class Ctx:
         for op in ops:
             k = op[0]
             if k == "b":
-                hub.broadcast(cls_for(op[1])(None, tag=op[2]))
+                key = (tuple(op[1]), op[2])
+                msg = self.msgs.get(key)
+                if msg is None:
+                    msg = self.msgs[key] = cls_for(op[1])(None, tag=op[2])
+                hub.broadcast(msg)
             elif k == "d":
                 with hub.delay_callbacks():
                     self.run(op[1])
@@ -377,6 +382,14 @@ class Prog(Family):
                 nb = number(body)
                 for pre, hs in CONTEXTS:
                     yield [hs, pre + nb]
+        # the same message object broadcast several times (all tags equal): each broadcast counts
+        for n in range(2, 4):
+            for body in bodies(n, 2, ATOMS_SMALL[:2] + ATOMS_SMALL[3:4], BLOCKS[:1]):
+                if sum(1 for _ in _iter_kind(body, "b")) < 2:
+                    continue
+                sb = same_tag(body, 2)
+                for pre, hs in (CONTEXTS[0], CONTEXTS[1], CONTEXTS[3]):
+                    yield [hs, pre + sb]
         # subscription changes / listener death inside the body (smaller n, two contexts)
         for n in range(1, n_subs + 1):
             for body in bodies(n, 2, ATOMS_SMALL[:2] + ATOMS_SMALL[3:4] + ATOMS_SUBS, BLOCKS[:1] + BLOCKS[2:]):
@@ -402,6 +415,31 @@ class Prog(Family):
         for i, h in enumerate(handlers):
             for hb in shrink_ops(h):
                 yield [handlers[:i] + [hb] + handlers[i + 1:], prog]
+
+
+def _iter_kind(ops, kind):
+    for op in ops:
+        if op[0] == kind:
+            yield op
+        if op[0] in ("d", "c"):
+            yield from _iter_kind(op[1], kind)
+        if op[0] == "i":
+            yield from _iter_kind(op[2], kind)
+
+
+def same_tag(ops, tag):
+    out = []
+    for op in ops:
+        k = op[0]
+        if k == "b":
+            out.append(["b", op[1], tag])
+        elif k in ("d", "c"):
+            out.append([k, same_tag(op[1], tag)])
+        elif k == "i":
+            out.append(["i", op[1], same_tag(op[2], tag)])
+        else:
+            out.append(list(op))
+    return out
 
 
 def _has_kind(ops, kind):
@@ -441,6 +479,7 @@ class RandGen:
         self.rank = [rng.randint(0, MAXRANK) for _ in range(nh)]
         self.tag = 0
         self.mark = 0
+        self.sent = []
 
     def cls(self, lo, hi):
         fams = [f for f in range(lo, hi + 1)]
@@ -461,8 +500,15 @@ class RandGen:
         for _ in range(n):
             r = rng.random()
             if r < 0.34 and minfam <= MAXRANK:
-                self.tag += 1
-                out.append(["b", self.cls(minfam, MAXRANK), self.tag])
+                again = [m for m in self.sent if m[0][0] >= minfam]
+                if again and rng.random() < 0.12:
+                    c, t = rng.choice(again)  # the same message object once more
+                    out.append(["b", list(c), t])
+                else:
+                    self.tag += 1
+                    c = self.cls(minfam, MAXRANK)
+                    self.sent.append((c, self.tag))
+                    out.append(["b", c, self.tag])
             elif r < 0.46:
                 self.mark += 1
                 out.append(["m", self.mark])
@@ -543,7 +589,7 @@ PROP = Property(
     theorems=[
         "C07.impl_refines_spec_from", "C07.impl_refines_spec", "C07.impl_idle_after",
         "C07.impl_delayed_refines_held", "C07.spec_silent_while_delayed", "C07.spec_queue_in_order",
-        "C07.spec_queue_complete", "C07.spec_delay_block", "C07.spec_exactly_once",
+        "C07.spec_queue_not_ignored", "C07.spec_queue_complete", "C07.spec_delay_block", "C07.spec_exactly_once",
         "C07.spec_ignored_dropped", "C07.spec_nested_inside", "C07.spec_sequential", "C07.targets_mem",
         "C07.bestSub_most_specific", "C07.bestSub_none_iff_unsubscribed", "C07.targets_priority_order",
         "C07.targets_listeners_distinct", "C07.spec_listeners_stay_distinct",
